@@ -1,22 +1,22 @@
 SPECIFICATION SSpec
 CONSTANTS
-  Variants = {"best"}
+  Variants = {"deadline"}
   Relays = {1, 2, 3}
   FetchSet <- ScenFetchSet
   Values = {0, 1, 2, 3}
   CfgSet = {}
   TableSet = {"A", "B"}
   BuilderSet = {"std", "plus", "minus", "excl", "half", "boost"}
-  AnswerSet <- ScenAnswers
+  AnswerSet <- WiredAnswers
   Headers = {1, 2}
-  MaxRounds = 1
+  MaxRounds = 3
   Keys <- ScenKeys
   MaxAuctions = 3
   MaxOpen = 2
   Deviation = "none"
-  TickWeight = 2
+  TickWeight = 1
   DeliverWeight = 3
   StartWeight = 2
-  Family = "fake"
+  Family = "wired"
 INVARIANTS Emit WinnerIsArgmax ProvidersOfferedWinner NoWinnerIffNone CacheRight
 CHECK_DEADLOCK FALSE
